@@ -407,6 +407,8 @@ def rule_zero_outcome_guard(ctx: Ctx) -> None:
 
 def run(ctx: Ctx) -> None:
     rule_zero_outcome_guard(ctx)
+    from .c11 import rule_ctor_phase_source
+    rule_ctor_phase_source(ctx)   # stabilizer tableau -> Clifford tableau is one of the conversions
     rule_phase_correction_always(ctx)
     rule_no_sign_precondition(ctx)
     rule_inverse_side(ctx)
